@@ -75,8 +75,10 @@ func newLruCache(maxEntries int) *lruCache {
 }
 
 func (l *lruCache) Get(key string) (interface{}, bool) {
-	l.lock.RLock()
-	defer l.lock.RUnlock()
+	// Get moves the entry to the front of the LRU list, i.e. it writes:
+	// a read lock is not enough.
+	l.lock.Lock()
+	defer l.lock.Unlock()
 
 	return l.cache.Get(key)
 }
